@@ -264,6 +264,8 @@ def tie_traces(job):
                 retval = next((p for p in PROVS if vfake.VALUES[(p, m)] == got), 'nobody')
         except ServiceError:
             outcome = 'raise'
+        except Exception as e:          # any other exception is an observation, never a harness failure
+            outcome = 'exception-%s' % type(e).__name__
         ev = [{'k': x[0], 'p': x[1]} for x in vfake.LOG if x[2] in (m, '')]
         out.append({'resp': resp, 'prio': prio, 'mp': mp, 'me': me, 'ev': ev, 'method': m,
                     'fin': {'outcome': outcome, 'retval': retval, 'results': list(srv.results.keys()),
